@@ -362,9 +362,18 @@ private:
 			}
 
 			if (! tempList.empty()) {
-				std::lock_guard<Mutex> queueListLock(queueListMutex);
-				EVENTPP_VERIF_POINT("cs.hqueue.requeue");
-				queueList.splice(queueList.begin(), tempList);
+				{
+					std::lock_guard<Mutex> queueListLock(queueListMutex);
+					EVENTPP_VERIF_POINT("cs.hqueue.requeue");
+					queueList.splice(queueList.begin(), tempList);
+				}
+
+				// The events that were not dispatched are visible to the other threads again.
+				// A thread woken while they were held here found nothing to process and is gone,
+				// so notify again or a thread in wait() sleeps on while events are pending.
+				if(doCanProcess()) {
+					queueListConditionVariable.notify_one();
+				}
 			}
 
 			if(! idleList.empty()) {
